@@ -671,7 +671,15 @@ def c06_family(tier):
 
     # ... late in the run, when the ids are far from 0 (a restarted source must adopt the id its consumer asks for at once)
     fs = [src(N, period=20), sink('snk', ['src'], [('slow', 30)]), sink('lis', ['src?;main>x'])]
-    mk('chain2+listener-late/src', fs, ['src'], [0])
+    mk('chain2+listener-late/src', fs, ['src'], [0, C06_CT + 200])      # (the longer delay outlasts the consumers' request queue: they go back to the handshake)
+    out[-1]['horizon_ms'] = 2040
+    out[-1]['faults']['from_ms'] = 2000
+    out[-1]['late_d1'] = True
+
+    # ... the same with a graceful stop (CLOSE puts the consumers back into the 'new' handshake while the listener keeps the restarted
+    # source busy publishing ids the synchronized consumer has long passed)
+    fs = [src(N, period=20), sink('snk', ['src'], [('slow', 30)]), sink('lis', ['src?;main>x'])]
+    mk('chain2+listener-late-graceful/src', fs, ['src'], [300], kinds=('graceful',))
     out[-1]['horizon_ms'] = 2040
     out[-1]['faults']['from_ms'] = 2000
     out[-1]['late_d1'] = True
